@@ -59,6 +59,9 @@ def check(run, prog, tier):
     rule_I2(run, prog, m)
     rule_J(run, prog, m)
     rule_K(run, prog, m)
+    run.rule("C19-N", "a cell that was never added is skipped alone: the 'not there' handler of a view helper stands for one cell, "
+                      "not for the loop over the cells", minimum=6)
+    rule_N(run, prog, m)
     run.extra["exhaustive"] = True
 
 
@@ -405,6 +408,34 @@ def rule_I2(run, prog, m):
                                "shape of the axes is broadcast into the stored one by the sum (the setter sees only the sum, which "
                                "fits) - the same array is refused when it is the first addition to the cell"
                                % (f.short, norm(st.value), par), loc=f.loc(st), sample={"store": norm(st)})
+
+
+def rule_N(run, prog, m):
+    """'Each view equals the sum of the additions belonging to it': the view helpers (_pathways_to_*, _types_to_*, ...) add
+    up the cells of a class and skip a cell that was never added - the read of that one cell sits in a try whose handler
+    goes on.  The handler must stand for one cell: a try that encloses the loop over the cells ends the whole sum at the
+    first missing cell, and every cell after it is left out of the view, of the total and of every reduction made
+    through the helper (a response that holds R2g but not R1g loses R2g from GSB)."""
+    rid = "C19-N"
+    n = 0
+    for nme, f in sorted(m.functions.items()):
+        if not (nme.startswith("_") and "_to_" in nme):
+            continue
+        for tr in [x for x in walk_no_nested(f.node) if isinstance(x, ast.Try)]:
+            swallowing = [h for h in tr.handlers if not any(isinstance(y, ast.Raise) for y in ast.walk(h))]
+            if not swallowing:
+                continue
+            n += 1
+            prog.consulted.add(f.relpath)
+            loops = [y for b_ in tr.body for y in ast.walk(b_) if isinstance(y, (ast.For, ast.While))]
+            run.obligation(rid, "twod2." + nme, not loops, key="one-cell-per-handler:%d" % n,
+                           message="%s reads the cells of a view inside one try around the whole loop (`for %s in %s`): the first cell "
+                                   "that was never added raises, the handler goes on after the loop, and the cells that follow are "
+                                   "missing from the view, the total and the reductions"
+                                   % (nme, norm(loops[0].target) if loops else "", norm(loops[0].iter)[:40] if loops else ""),
+                           loc=f.loc(tr), sample={"function": nme})
+    if n < 6:
+        raise AnalysisError("C19-N: only %d cell reads with a 'not there' handler found in the view helpers" % n)
 
 
 def rule_M(run, prog, m):
